@@ -592,16 +592,23 @@ def flattenSeq (ws : List Wf) : List Wf :=
     | .seq xs => xs
     | w => [w])
 
+/-- `constant_values == wf.constant_value_dict()` -/
+def cvdEq (d : List (Chan × Rat)) (w : Wf) : Bool :=
+  match constantValueDict w with
+  | some e => dictEq d e
+  | none => false
+
+/-- one round of the loop of `from_sequence`: `if constant_values and constant_values != …: constant_values = None` -/
+def seqStep (cv : Option (List (Chan × Rat))) (w : Wf) : Option (List (Chan × Rat)) :=
+  match cv with
+  | some d => if d ≠ [] ∧ cvdEq d w = false then none else some d
+  | none => none
+
 /-- the `constant_values` variable of `from_sequence` after the loop -/
 def seqConstants (ws : List Wf) : Option (List (Chan × Rat)) :=
   match ws with
   | [] => none
-  | w0 :: _ => ws.foldl (fun cv w => match cv with
-      | some d =>
-        if d ≠ [] ∧ !(match constantValueDict w with
-          | some e => dictEq d e
-          | none => false) then none else some d
-      | none => none) (constantValueDict w0)
+  | w0 :: _ => ws.foldl seqStep (constantValueDict w0)
 
 /-- `SequenceWaveform.from_sequence(waveforms)` -/
 def fromSequence (ws : List Wf) : Except Err Wf :=
